@@ -207,6 +207,8 @@ func (d *DHCPv4) SerializeTo(b gopacket.SerializeBuffer, opts gopacket.Serialize
 	if err != nil {
 		return err
 	}
+	// Unset addresses and the unused part of the fixed size fields are zero.
+	clear(data[:240])
 
 	data[0] = byte(d.Operation)
 	data[1] = byte(d.HardwareType)
